@@ -188,7 +188,7 @@ def apply_contract(interp, c, func, args, kwargs):
     env2 = _clause_env(bound, ghosts, {'result': result, 'old': old, 'trace': st.trace, 'ghost': st.ghost})
     n_pc = len(st.pc)
     n_dec0 = len(st.decisions)
-    feasible_before = (c.modifies is not None or callable(c.returns)) and st.check() == z3.sat
+    feasible_before = (c.modifies is not None or callable(c.returns)) and st.check(timeout_ms=300) == z3.sat
     for name, clause in c.ensures.items():
         if isinstance(clause, tuple) and callable(clause[1]):
             # (clause, when): proved of the function, but assumed at a call site only where
@@ -211,7 +211,8 @@ def apply_contract(interp, c, func, args, kwargs):
             raise Unsupported('call of %s through its contract in %s: ensures[%s] is false after the frame havoc '
                               '(use inline=True or a frame that can produce the promised state)'
                               % (c.qname, caller, name))
-    if feasible_before and len(st.decisions) == n_dec0 and len(st.pc) > n_pc and st.check() == z3.unsat:
+    if feasible_before and len(st.decisions) == n_dec0 and len(st.pc) > n_pc and \
+            st.check(timeout_ms=300) == z3.unsat:
         # The path was satisfiable, the frame was havocked, and the postcondition -- without any case split
         # that could have ruled out an alternative -- made it unsatisfiable: the havoc cannot produce a state the
         # postcondition describes (typically: it promises the identity of an object that the havoc re-created).
@@ -260,7 +261,11 @@ def havoc_modifies(interp, c, bound):
             # the object becomes arbitrary in its own way (e.g. by an environment step that is known to
             # cover every state the postcondition allows)
             interp.note_heap_write(obj, None)
-            attrs.fn(interp, obj)
+            import inspect as _inspect
+            if len(_inspect.signature(attrs.fn).parameters) >= 3:
+                attrs.fn(interp, obj, bound)       # (the new state may refer to the other arguments)
+            else:
+                attrs.fn(interp, obj)
             continue
         for attr, ty in attrs.items():
             interp.note_heap_write(obj, attr)
